@@ -208,6 +208,7 @@ def run_suite(suite, tier, seed, extra=None, replay=None, timeout=7200):
         cmd += ["--replay", replay]
     env = go_env()
     env["GGV_REPO"] = REPO
+    env["GGV_VERIF"] = VERIF
     env["GGV_CACHE"] = CACHE
     p = subprocess.run(cmd, stdout=subprocess.PIPE, stderr=subprocess.PIPE, text=True, env=env, timeout=timeout, cwd=VERIF)
     if p.returncode != 0:
